@@ -228,18 +228,63 @@ theorem spliceDrainDrop_empty (bombs : List Id) (unw : Bool) {v : Vec} {d : Drai
     congr 2
     apply Vec.eq_of <;> simp [hlen, hs]
 
-/-- the optional `move_tail(lower_bound); fill` step keeps the gap closed -/
-theorem spliceSecond_closed (env : Env) {v : Vec} {d : DrainSt} {h tail dl esc : List Id} (s : List Id) (lower : Nat)
-    (hc : Closed v d h tail dl esc) (hl : lower ≤ s.length) :
-    ∃ v' d', spliceSecond env v d s lower = .ok (v', d', s.drop lower, true) ∧
-      Closed v' d' (h ++ s.take lower) tail dl esc ∧ v.cap ≤ v'.cap ∧ d'.ptr = d.ptr ∧ d'.end_ = d.end_ := by
+/-- `move_tail(a); fill(..)` with FEWER than `a` values left (an over-reporting source): everything is written,
+    a gap of `a - s.length` holes stays in front of the moved tail -/
+theorem spliceMoveFillShort (env : Env) {v : Vec} {d : DrainSt} {h tail dl esc : List Id} (s : List Id) (a : Nat)
+    (hc : Closed v d h tail dl esc) (ha : a > s.length) :
+    ∃ v1 d1 v' sp, spliceMoveTail env v d a = .ok (v1, d1) ∧
+      spliceFill (d1.tailStart - v1.len) v1 s = .ok (v', [], false) ∧
+      v'.slots = I (h ++ s) ++ H (a - s.length) ++ I tail ++ H sp ∧ v'.len = (h ++ s).length ∧
+      d1.tailStart = (h ++ s).length + (a - s.length) ∧ d1.tailLen = tail.length ∧
+      v'.dropLog = dl ∧ v'.escaped = esc ∧ v.cap ≤ v'.cap ∧ d1.ptr = d.ptr ∧ d1.end_ = d.end_ := by
+  obtain ⟨spare, hs⟩ := hc.slots
+  obtain ⟨spare', hmt, hsp⟩ := spliceMoveTail_seg env a hs hc.tailStart hc.tailLen
+  refine ⟨_, _, { v with slots := I (h ++ s) ++ H (a - s.length) ++ I tail ++ H spare', len := h.length + s.length }, spare', hmt, ?_, rfl, ?_, ?_, hc.tailLen, hc.dropLog, hc.escaped, ?_, rfl, rfl⟩
+  · simp only [hc.len, Nat.add_sub_cancel_left]
+    rw [spliceFill_seg a { v with slots := I h ++ H a ++ I tail ++ H spare', len := h.length } h s (I tail ++ H spare') (by simp) rfl]
+    have h1 : s.take a = s := List.take_of_length_le (by omega)
+    have h2 : s.drop a = [] := List.drop_eq_nil_of_le (by omega)
+    have h3 : ¬ a ≤ s.length := by omega
+    congr 2
+    · apply Vec.eq_of <;> simp [h1]
+      omega
+    · simp [h2, h3]
+  · simp
+  · simp; omega
+  · simp [Vec.cap, hs]; omega
+
+/-- the optional `move_tail(lower_bound); fill` step: a "capacity overflow" changes nothing; otherwise the gap
+    is closed again, or (over-reporting source) everything is written and a gap remains -/
+theorem spliceSecond_cases (env : Env) (maxCap : Nat) {v : Vec} {d : DrainSt} {h tail dl esc : List Id} (s : List Id) (lower : Nat)
+    (hc : Closed v d h tail dl esc) :
+    (lower > 0 ∧ capOverflow env maxCap v (d.tailStart + d.tailLen) lower = true ∧
+        spliceSecond env maxCap v d s lower = .ok (v, d, s, .unwind)) ∨
+    (¬ (lower > 0 ∧ capOverflow env maxCap v (d.tailStart + d.tailLen) lower = true) ∧ lower ≤ s.length ∧
+        ∃ v' d', spliceSecond env maxCap v d s lower = .ok (v', d', s.drop lower, .goOn) ∧
+          Closed v' d' (h ++ s.take lower) tail dl esc ∧ v.cap ≤ v'.cap ∧ d'.ptr = d.ptr ∧ d'.end_ = d.end_) ∨
+    (¬ (lower > 0 ∧ capOverflow env maxCap v (d.tailStart + d.tailLen) lower = true) ∧ lower > s.length ∧
+        ∃ v' d' sp, spliceSecond env maxCap v d s lower = .ok (v', d', [], .done) ∧
+          v'.slots = I (h ++ s) ++ H (lower - s.length) ++ I tail ++ H sp ∧ v'.len = (h ++ s).length ∧
+          d'.tailStart = (h ++ s).length + (lower - s.length) ∧ d'.tailLen = tail.length ∧
+          v'.dropLog = dl ∧ v'.escaped = esc ∧ v.cap ≤ v'.cap ∧ d'.ptr = d.ptr ∧ d'.end_ = d.end_) := by
   unfold spliceSecond
   by_cases h0 : lower > 0
-  · obtain ⟨v1, d1, v', h1, h2, h3, h4, h5, h6⟩ := spliceMoveFill env s lower hc hl
-    exact ⟨v', d1, by simp only [h0, ↓reduceIte, h1, h2], h3, h4, h5, h6⟩
-  · have : lower = 0 := by omega
-    subst this
-    exact ⟨v, d, by simp, by simpa using hc, Nat.le_refl _, rfl, rfl⟩
+  · by_cases hov : capOverflow env maxCap v (d.tailStart + d.tailLen) lower = true
+    · left; exact ⟨h0, hov, by simp [h0, hov]⟩
+    · have hn : ¬ (lower > 0 ∧ capOverflow env maxCap v (d.tailStart + d.tailLen) lower = true) := fun h => hov h.2
+      by_cases hl : lower ≤ s.length
+      · right; left
+        obtain ⟨v1, d1, v', h1, h2, h3, h4, h5, h6⟩ := spliceMoveFill env s lower hc hl
+        exact ⟨hn, hl, v', d1, by simp only [h0, ↓reduceIte, hov, Bool.false_eq_true, h1, h2], h3, h4, h5, h6⟩
+      · right; right
+        obtain ⟨v1, d1, v', sp, h1, h2, h3, h4, h5, h6, h7, h8, h9, h10, h11⟩ := spliceMoveFillShort env s lower hc (by omega)
+        exact ⟨hn, by omega, v', d1, sp, by simp only [h0, ↓reduceIte, hov, Bool.false_eq_true, h1, h2], h3, h4, h5, h6, h7, h8, h9, h10, h11⟩
+  · have h00 : lower = 0 := by omega
+    subst h00
+    right; left
+    exact ⟨fun h => h0 h.1, Nat.zero_le _, v, d, by simp, by simpa using hc, Nat.le_refl _, rfl, rfl⟩
+
+theorem dropArgs_cap (w : Vec) (l : List Id) : (dropArgs w l).cap = w.cap := rfl
 
 theorem dropArgs_nil (v : Vec) : dropArgs v [] = v := by cases v; simp [dropArgs]
 
@@ -248,6 +293,26 @@ theorem holds_of_slots {v : Vec} {xs : List Id} {k : Nat} (hs : v.slots = I xs +
   refine ⟨?_, hl.symm, rfl, rfl⟩
   have : v.cap - v.len = k := by simp [Vec.cap, hs, hl]
   rw [this, hs]
+
+/-- `Extend::extend` on a `BumpVec`: either the up-front reservation for the CLAIMED length overflows (nothing
+    changes, the source is dropped), or every value is pushed -/
+theorem extendIter_bump (env : Env) (hk : env.kind = .bump) (v : Vec) (xs src : List Id) (hint : Nat) (lie : Option Nat)
+    (maxCap : Nat) (hs : v.slots = I xs ++ H (v.cap - v.len)) (hl : xs.length = v.len) :
+    if capOverflow env maxCap v v.len (spliceLower hint lie src.length) then
+      extendIter env v src hint lie maxCap = .ok ⟨dropArgs v src, .panic false, []⟩
+    else
+      ∃ v', extendIter env v src hint lie maxCap = .ok ⟨v', .ret (), []⟩ ∧
+        Holds v' (xs ++ src) v.dropLog v.escaped ∧ v.cap ≤ v'.cap := by
+  unfold extendIter
+  by_cases hov : capOverflow env maxCap v v.len (spliceLower hint lie src.length) = true
+  · simp [hov]
+  · simp only [hov, Bool.false_eq_true, ↓reduceIte]
+    obtain ⟨v1, hr⟩ := reserve_bump' env v (spliceLower hint lie src.length) hk
+    have ⟨gr, _⟩ := reserve_some hs hl hr
+    obtain ⟨v2, h1, h2, h3⟩ := spliceExtendLoop_bump env hk src v1 xs v.dropLog v.escaped
+      ⟨gr.slots, by rw [gr.len]; exact hl, gr.dropLog, gr.escaped⟩
+    simp only [hr, h1, dropArgs_nil, Bool.false_eq_true, ↓reduceIte]
+    exact ⟨v2, rfl, h2, by have := gr.cap; omega⟩
 
 /-- `spliceFill_seg` without the record -/
 theorem spliceFill_ex (g : Nat) (v : Vec) (head src : List Id) (R : List Slot)
@@ -265,90 +330,190 @@ theorem spliceDrainDrop_ex (bombs : List Id) (unw : Bool) {v : Vec} {d : DrainSt
       v'.len = (head ++ tail).length ∧ v'.dropLog = v.dropLog ∧ v'.escaped = v.escaped ∧ v'.cap = v.cap :=
   ⟨_, spliceDrainDrop_empty bombs unw hs hlen hpe hts htl, rfl, by simp, rfl, rfl, by simp [Vec.cap, hs]; omega⟩
 
+/-- what the list level is told about the vector and the source -/
+def capsOf (env : Env) (v : Vec) (hintCap : Nat) (lie : Option Nat) (maxCap : Nat) : SpliceCaps :=
+  { cap := v.cap, minCap := env.minCap, maxCap := maxCap, hintCap := hintCap, lie := lie }
+
+theorem overflows_eq (env : Env) (v w : Vec) (hintCap : Nat) (lie : Option Nat) (maxCap len add : Nat) (hc : w.cap = v.cap) :
+    capOverflow env maxCap w len add = (capsOf env v hintCap lie maxCap).overflows len add := by
+  simp [capOverflow, SpliceCaps.overflows, capsOf, hc]
+
+theorem take_append_drop_len (k : Nat) (l : List Id) : l.take k ++ l.drop (l.take k).length = l := by
+  by_cases h : k ≤ l.length
+  · rw [List.length_take, Nat.min_eq_left h, List.take_append_drop]
+  · rw [List.take_of_length_le (by omega)]; simp
+
 /-- **the splicing part**: with the drained range empty (`g` holes between `head` and the tail), a `BumpVec`
-    ends up holding `head ++ src ++ tail`, whatever lower bound `replace_with` reports -/
+    ends up holding `head ++ written ++ tail` where `written` is all of `src` — or, when a reservation for the
+    number of items the source CLAIMS overflows, the prefix written before that panic; the rest of `src` is
+    dropped with `replace_with`.  For every size hint, honest or lying. -/
 theorem spliceFinish_bump (env : Env) (hk : env.kind = .bump) {v : Vec} {d : DrainSt} {head tail dl esc : List Id} {g spare : Nat}
-    (src : List Id) (hint : Nat)
+    (src : List Id) (hint : Nat) (lie : Option Nat) (maxCap : Nat)
     (hs : v.slots = I head ++ H g ++ I tail ++ H spare) (hlen : v.len = head.length) (hpe : d.ptr = d.end_)
     (hts : d.tailStart = head.length + g) (htl : d.tailLen = tail.length) (hdl : v.dropLog = dl) (hesc : v.escaped = esc) :
-    ∃ v', spliceFinish env v d src hint = .ok (v', false, false) ∧ Holds v' (head ++ src ++ tail) dl esc ∧ v.cap ≤ v'.cap := by
+    ∃ v', spliceFinish env v d src hint lie maxCap =
+        .ok (v', (spliceWritten (capsOf env v hint lie maxCap) head.length (head.length + g) (head.length + g + tail.length) src).2, false) ∧
+      Holds v' (head ++ (spliceWritten (capsOf env v hint lie maxCap) head.length (head.length + g) (head.length + g + tail.length) src).1 ++ tail)
+        (dl ++ src.drop (spliceWritten (capsOf env v hint lie maxCap) head.length (head.length + g) (head.length + g + tail.length) src).1.length) esc ∧
+      v.cap ≤ v'.cap := by
   have hcap : v.cap = head.length + g + tail.length + spare := by simp [Vec.cap, hs]; omega
-  unfold spliceFinish spliceBody
+  have hcH : (capsOf env v hint lie maxCap).hintCap = hint := rfl
+  have hcL : (capsOf env v hint lie maxCap).lie = lie := rfl
+  have hcM : (capsOf env v hint lie maxCap).maxCap = maxCap := rfl
+  unfold spliceFinish spliceBody spliceWritten
+  simp only [hcH, hcL, hcM]
   by_cases ht : d.tailLen = 0
   · -- nothing behind the range: `extend`
     have htail : tail = [] := List.eq_nil_of_length_eq_zero (by omega)
     subst htail
-    have hshape : v.slots = I head ++ H (v.cap - v.len) := by
-      rw [hs, hcap, hlen]; simp only [I_nil, List.append_nil, List.append_assoc]; rw [← H_add]; congr 2; simp; omega
-    obtain ⟨v1, hr⟩ := reserve_bump' env v (min src.length hint) hk
-    have ⟨gr, _⟩ := reserve_some hshape hlen.symm hr
-    obtain ⟨v2, h1, h2, h3⟩ := spliceExtendLoop_bump env hk src v1 head dl esc
-      ⟨gr.slots, by rw [gr.len]; exact hlen.symm, by rw [gr.dropLog, hdl], by rw [gr.escaped, hesc]⟩
-    simp only [ht, ↓reduceIte, hr, h1]
-    have hs2 : v2.slots = I (head ++ src) ++ H (v2.cap - v2.len) ++ I [] ++ [] := by simpa using h2.slots
-    obtain ⟨v3, e3, s3, l3, dl3, es3, c3⟩ := spliceDrainDrop_ex env.bombs false hs2 h2.len.symm hpe (by omega) (by simpa using ht)
-    rw [e3]
-    simp only [dropArgs_nil, Bool.or_false]
-    refine ⟨v3, rfl, ?_, ?_⟩
-    · have := holds_of_slots (v := v3) (xs := head ++ src) (k := v2.cap - v2.len) (by simpa using s3) (by simpa using l3)
-      rw [dl3, es3, h2.dropLog, h2.escaped] at this
-      simpa using this
-    · have := gr.cap; omega
-  · simp only [ht, ↓reduceIte]
+    simp only [ht, ↓reduceIte, List.length_nil, Nat.add_zero]
+    rw [hlen, overflows_eq env v v hint lie maxCap _ _ rfl]
+    by_cases hov : (capsOf env v hint lie maxCap).overflows head.length (spliceLower hint lie src.length) = true
+    · -- "capacity overflow" in `reserve(size_hint().0)`: nothing written, `replace_with` dropped
+      simp only [hov, ↓reduceIte]
+      have hs2 : v.slots = I head ++ H g ++ I [] ++ H spare := by simpa using hs
+      obtain ⟨v3, e3, s3, l3, dl3, es3, c3⟩ := spliceDrainDrop_ex env.bombs true hs2 hlen hpe (by omega) (by simpa using ht)
+      rw [e3]
+      refine ⟨dropArgs v3 src, by simp, ?_, by rw [dropArgs_cap]; omega⟩
+      have := holds_of_slots (v := v3) (xs := head) (k := g + spare) (by rw [s3]; simp [H_add]) (by simpa using l3)
+      refine ⟨by simpa [dropArgs, Vec.cap] using this.slots, by simpa [dropArgs] using this.len, ?_, ?_⟩
+      · simp only [dropArgs, List.length_nil, List.drop_zero]; rw [dl3, hdl]
+      · simp only [dropArgs]; rw [es3, hesc]
+    · have hov' : (capsOf env v hint lie maxCap).overflows head.length (spliceLower hint lie src.length) = false := by simpa using hov
+      simp only [hov', Bool.false_eq_true, ↓reduceIte]
+      have hshape : v.slots = I head ++ H (v.cap - v.len) := by
+        rw [hs, hcap, hlen]; simp only [I_nil, List.append_nil, List.append_assoc]; rw [← H_add]; congr 2; simp; omega
+      obtain ⟨v1, hr⟩ := reserve_bump' env v (spliceLower hint lie src.length) hk
+      have ⟨gr, _⟩ := reserve_some hshape hlen.symm hr
+      obtain ⟨v2, h1, h2, h3⟩ := spliceExtendLoop_bump env hk src v1 head dl esc
+        ⟨gr.slots, by rw [gr.len]; exact hlen.symm, by rw [gr.dropLog, hdl], by rw [gr.escaped, hesc]⟩
+      simp only [hr, h1]
+      have hs2 : v2.slots = I (head ++ src) ++ H (v2.cap - v2.len) ++ I [] ++ [] := by simpa using h2.slots
+      obtain ⟨v3, e3, s3, l3, dl3, es3, c3⟩ := spliceDrainDrop_ex env.bombs false hs2 h2.len.symm hpe (by omega) (by simpa using ht)
+      rw [e3]
+      simp only [dropArgs_nil, Bool.or_false, List.drop_length, List.append_nil]
+      refine ⟨v3, rfl, ?_, ?_⟩
+      · have := holds_of_slots (v := v3) (xs := head ++ src) (k := v2.cap - v2.len) (by simpa using s3) (by simpa using l3)
+        rw [dl3, es3, h2.dropLog, h2.escaped] at this
+        simpa using this
+      · have := gr.cap; omega
+  · have htne : ¬ (head.length + g = head.length + g + tail.length) := by omega
+    simp only [ht, htne, ↓reduceIte]
     have hs1 : v.slots = I head ++ H g ++ (I tail ++ H spare) := by simp [hs]
     obtain ⟨v1, e1, s1, l1, dl1, es1, c1⟩ := spliceFill_ex g v head src _ hs1 hlen
     rw [hts, hlen, Nat.add_sub_cancel_left, e1]
+    have hgg : head.length + g - head.length = g := by omega
+    try simp only [hgg]
     by_cases hn : g ≤ src.length
     · -- the range is filled; the rest goes in behind it
-      simp only [hn, decide_true]
+      have hn' : ¬ src.length < g := by omega
+      simp only [hn, decide_true, hn', ↓reduceIte]
       have hc1 : Closed v1 d (head ++ src.take g) tail dl esc := by
         refine ⟨⟨spare, ?_⟩, ?_, ?_, htl, by rw [dl1, hdl], by rw [es1, hesc]⟩
         · have : g - src.length = 0 := by omega
           rw [s1, this]; simp
         · rw [l1]; simp <;> omega
         · rw [hts]; simp <;> omega
-      obtain ⟨v2, d2, e2, c2, cap2, p2, q2⟩ := spliceSecond_closed env (src.drop g) (min (src.drop g).length hint) hc1 (Nat.min_le_left _ _)
-      simp only [e2]
-      generalize hsrc2 : (src.drop g).drop (min (src.drop g).length hint) = src2 at *
-      generalize hh2 : head ++ src.take g ++ (src.drop g).take (min (src.drop g).length hint) = h2 at *
-      have hall : h2 ++ src2 = head ++ src := by
-        rw [← hsrc2, ← hh2, List.append_assoc, List.append_assoc, List.take_append_drop, List.take_append_drop]
-      by_cases h3 : src2.length > 0
-      · obtain ⟨v3, d3, v4, e3, e4, c4, cap4, p4, q4⟩ := spliceMoveFill env src2 src2.length c2 (Nat.le_refl _)
-        simp only [h3, ↓reduceIte, e3, e4]
-        rw [List.take_length, hall] at c4
-        obtain ⟨sp, hs4⟩ := c4.slots
-        have hs4' : v4.slots = I (head ++ src) ++ H 0 ++ I tail ++ H sp := by simpa using hs4
-        obtain ⟨v5, e5, s5, l5, dl5, es5, c5⟩ := spliceDrainDrop_ex env.bombs false hs4' c4.len (by omega)
-          (by intro _; simpa using c4.tailStart) c4.tailLen
+      have hlenx : d.tailStart + d.tailLen = head.length + g + tail.length := by omega
+      generalize hrest : src.drop g = rest at *
+      generalize hlow : spliceLower hint lie rest.length = lower at *
+      have hh1 : (head ++ src.take g).length = head.length + g := by simp; omega
+      rcases spliceSecond_cases env maxCap rest lower hc1 with ⟨h0, hov, e2⟩ | ⟨hno, hl, v2, d2, e2, c2, cap2, p2, q2⟩ | ⟨hno, hl, v2, d2, sp, e2, s2, l2, ts2, tl2, dl2, es2, cap2, p2, q2⟩
+      · -- "capacity overflow" in `move_tail(lower_bound)`: the filled range stays, the tail was not touched
+        rw [hlenx, overflows_eq env v v1 hint lie maxCap _ _ c1] at hov
+        simp only [e2, h0, hov, and_self, ↓reduceIte]
+        obtain ⟨sp, hsc⟩ := hc1.slots
+        have hsc' : v1.slots = I (head ++ src.take g) ++ H 0 ++ I tail ++ H sp := by simpa using hsc
+        obtain ⟨v5, e5, s5, l5, dl5, es5, c5⟩ := spliceDrainDrop_ex env.bombs true hsc' hc1.len (by omega)
+          (by intro _; simpa using hc1.tailStart) hc1.tailLen
         rw [e5]
-        simp only [List.drop_length, dropArgs_nil, Bool.or_false]
-        refine ⟨v5, rfl, ?_, by omega⟩
-        have := holds_of_slots (v := v5) (xs := head ++ src ++ tail) (k := sp) (by simpa using s5) (by simpa using l5)
-        rw [dl5, es5, c4.dropLog, c4.escaped] at this
-        exact this
-      · have hnil : src2 = [] := List.eq_nil_of_length_eq_zero (by omega)
-        simp only [h3, ↓reduceIte]
-        rw [hnil, List.append_nil] at hall
-        rw [hall] at c2
-        obtain ⟨sp, hs2⟩ := c2.slots
-        have hs2' : v2.slots = I (head ++ src) ++ H 0 ++ I tail ++ H sp := by simpa using hs2
-        obtain ⟨v5, e5, s5, l5, dl5, es5, c5⟩ := spliceDrainDrop_ex env.bombs false hs2' c2.len (by omega)
-          (by intro _; simpa using c2.tailStart) c2.tailLen
-        rw [e5, hnil]
+        refine ⟨dropArgs v5 rest, by simp, ?_, by rw [dropArgs_cap]; omega⟩
+        have := holds_of_slots (v := v5) (xs := head ++ src.take g ++ tail) (k := sp) (by simpa using s5) (by simpa using l5)
+        refine ⟨by simpa [dropArgs, Vec.cap] using this.slots, by simpa [dropArgs] using this.len, ?_, ?_⟩
+        · simp only [dropArgs]; rw [dl5, hc1.dropLog, List.length_take, Nat.min_eq_left hn, hrest]
+        · simp only [dropArgs]; rw [es5, hc1.escaped]
+      · -- the gap is closed again; `collected`
+        rw [hlenx, overflows_eq env v v1 hint lie maxCap _ _ c1] at hno
+        have hno' : ¬ (lower > 0 ∧ (capsOf env v hint lie maxCap).overflows (head.length + g + tail.length) lower = true) := hno
+        have hl' : ¬ lower > rest.length := by omega
+        simp only [e2, hno', hl', ↓reduceIte]
+        generalize hsrc2 : rest.drop lower = src2 at *
+        generalize hh2 : head ++ src.take g ++ rest.take lower = h2 at *
+        have hall : h2 ++ src2 = head ++ src := by
+          rw [← hsrc2, ← hh2, ← hrest, List.append_assoc, List.append_assoc, List.take_append_drop, List.take_append_drop]
+        have htk : h2 = head ++ src.take (g + lower) := by
+          rw [← hh2, ← hrest, List.take_add, List.append_assoc]
+        by_cases hov3 : spliceLower hint lie src2.length > maxCap
+        · -- "capacity overflow" in `from_iter_in` → `with_capacity(size_hint().0)`
+          simp only [hov3, ↓reduceIte]
+          obtain ⟨sp, hsc⟩ := c2.slots
+          have hsc' : v2.slots = I h2 ++ H 0 ++ I tail ++ H sp := by simpa using hsc
+          obtain ⟨v5, e5, s5, l5, dl5, es5, c5⟩ := spliceDrainDrop_ex env.bombs true hsc' c2.len (by omega)
+            (by intro _; simpa using c2.tailStart) c2.tailLen
+          rw [e5]
+          refine ⟨dropArgs v5 src2, by simp, ?_, by rw [dropArgs_cap]; omega⟩
+          have := holds_of_slots (v := v5) (xs := h2 ++ tail) (k := sp) (by simpa using s5) (by simpa using l5)
+          rw [htk] at this
+          refine ⟨by simpa [dropArgs, Vec.cap] using this.slots, by simpa [dropArgs] using this.len, ?_, ?_⟩
+          · simp only [dropArgs]; rw [dl5, c2.dropLog]
+            have hle : g + lower ≤ src.length := by
+              have := congrArg List.length hrest; simp at this; omega
+            rw [List.length_take, Nat.min_eq_left hle, ← hsrc2, ← hrest, List.drop_drop]
+          · simp only [dropArgs]; rw [es5, c2.escaped]
+        · simp only [hov3, ↓reduceIte, List.drop_length, List.append_nil]
+          by_cases h3 : src2.length > 0
+          · obtain ⟨v3, d3, v4, e3, e4, c4, cap4, p4, q4⟩ := spliceMoveFill env src2 src2.length c2 (Nat.le_refl _)
+            simp only [h3, ↓reduceIte, e3, e4]
+            rw [List.take_length, hall] at c4
+            obtain ⟨sp, hs4⟩ := c4.slots
+            have hs4' : v4.slots = I (head ++ src) ++ H 0 ++ I tail ++ H sp := by simpa using hs4
+            obtain ⟨v5, e5, s5, l5, dl5, es5, c5⟩ := spliceDrainDrop_ex env.bombs false hs4' c4.len (by omega)
+              (by intro _; simpa using c4.tailStart) c4.tailLen
+            rw [e5]
+            simp only [List.drop_length, dropArgs_nil, Bool.or_false]
+            refine ⟨v5, rfl, ?_, by omega⟩
+            have := holds_of_slots (v := v5) (xs := head ++ src ++ tail) (k := sp) (by simpa using s5) (by simpa using l5)
+            rw [dl5, es5, c4.dropLog, c4.escaped] at this
+            exact this
+          · have hnil : src2 = [] := List.eq_nil_of_length_eq_zero (by omega)
+            simp only [h3, ↓reduceIte]
+            rw [hnil, List.append_nil] at hall
+            rw [hall] at c2
+            obtain ⟨sp, hs2⟩ := c2.slots
+            have hs2' : v2.slots = I (head ++ src) ++ H 0 ++ I tail ++ H sp := by simpa using hs2
+            obtain ⟨v5, e5, s5, l5, dl5, es5, c5⟩ := spliceDrainDrop_ex env.bombs false hs2' c2.len (by omega)
+              (by intro _; simpa using c2.tailStart) c2.tailLen
+            rw [e5, hnil]
+            simp only [dropArgs_nil, Bool.or_false]
+            refine ⟨v5, rfl, ?_, by omega⟩
+            have := holds_of_slots (v := v5) (xs := head ++ src ++ tail) (k := sp) (by simpa using s5) (by simpa using l5)
+            rw [dl5, es5, c2.dropLog, c2.escaped] at this
+            exact this
+      · -- the source over-reported: everything is written, the guard moves the tail back over the gap
+        rw [hlenx, overflows_eq env v v1 hint lie maxCap _ _ c1] at hno
+        have hno' : ¬ (lower > 0 ∧ (capsOf env v hint lie maxCap).overflows (head.length + g + tail.length) lower = true) := hno
+        simp only [e2, hno', hl, ↓reduceIte, List.drop_length, List.append_nil]
+        have hall : head ++ src.take g ++ rest = head ++ src := by
+          rw [← hrest, List.append_assoc, List.take_append_drop]
+        rw [hall] at s2 l2 ts2
+        obtain ⟨v5, e5, s5, l5, dl5, es5, c5⟩ := spliceDrainDrop_ex env.bombs false s2 l2 (by omega)
+          (by intro _; exact ts2) tl2
+        rw [e5]
         simp only [dropArgs_nil, Bool.or_false]
         refine ⟨v5, rfl, ?_, by omega⟩
-        have := holds_of_slots (v := v5) (xs := head ++ src ++ tail) (k := sp) (by simpa using s5) (by simpa using l5)
-        rw [dl5, es5, c2.dropLog, c2.escaped] at this
+        have := holds_of_slots (v := v5) (xs := head ++ src ++ tail) (k := lower - rest.length + sp)
+          (by rw [s5]; simp [H_add]) (by simpa using l5)
+        rw [dl5, es5, dl2, es2] at this
         exact this
     · -- `replace_with` ran dry inside the range: the guard of `Drain::drop` moves the tail back
+      have hn' : src.length < g := by omega
       have htk : src.take g = src := List.take_of_length_le (by omega)
       have hdr : src.drop g = [] := List.drop_eq_nil_of_le (by omega)
-      simp only [hn, decide_false, hdr]
+      simp only [hn, decide_false, hdr, hn', ↓reduceIte, List.drop_length, List.append_nil]
       rw [htk] at s1
       have hs3 : v1.slots = I (head ++ src) ++ H (g - src.length) ++ I tail ++ H spare := by rw [s1]; simp
-      obtain ⟨v5, e5, s5, l5, dl5, es5, c5⟩ := spliceDrainDrop_ex env.bombs false hs3 (by rw [l1]; simp; omega) hpe
-        (by intro _; rw [hts]; simp; omega) htl
+      obtain ⟨v5, e5, s5, l5, dl5, es5, c5⟩ := spliceDrainDrop_ex env.bombs false hs3 (by rw [l1]; simp <;> omega) hpe
+        (by intro _; rw [hts]; simp <;> omega) htl
       rw [e5]
       simp only [dropArgs_nil, Bool.or_false]
       refine ⟨v5, rfl, ?_, by omega⟩
@@ -391,16 +556,18 @@ theorem spliceDrainDrop_seg_ex (bombs : List Id) (unw : Bool) {v : Vec} {d : Dra
       v'.dropLog = v.dropLog ++ u ∧ v'.escaped = v.escaped ∧ v'.cap = v.cap :=
   ⟨_, spliceDrainDrop_seg bombs unw hs hlen hp he hts htl, rfl, by simp, rfl, rfl, by simp [Vec.cap, hs]; omega⟩
 
-/-- **refinement** of `BumpVec::splice`: from the standard shape, for every range, source, size hint and
-    pull script, with any set of panicking destructors: no fault, and the vector afterwards holds exactly
-    what the list-level `spliceSpec` says, with its drops and hand-outs -/
+/-- **refinement** of `BumpVec::splice`: from the standard shape, for every range, source, size hint (honest,
+    under- or OVER-reporting, up to "capacity overflow") and pull script, with any set of panicking
+    destructors: no fault, and the vector afterwards holds exactly what the list-level `spliceSpec` says,
+    with its drops and hand-outs -/
 theorem splice_holds (env : Env) (hk : env.kind = .bump) (v : Vec) (xs : List Id) (start end_ : Nat) (src : List Id)
-    (hint : Nat) (script : List Pull)
+    (hint : Nat) (lie : Option Nat) (maxCap : Nat) (script : List Pull)
     (hs : v.slots = I xs ++ H (v.cap - v.len)) (hl : xs.length = v.len) :
-    ∃ v', splice env v start end_ src hint script = .ok ⟨v', (spliceSpec env.bombs xs start end_ src script).exit, []⟩ ∧
-      Holds v' (spliceSpec env.bombs xs start end_ src script).final
-        (v.dropLog ++ (spliceSpec env.bombs xs start end_ src script).dropped)
-        (v.escaped ++ (spliceSpec env.bombs xs start end_ src script).escaped) ∧ v.cap ≤ v'.cap := by
+    ∃ v', splice env v start end_ src hint lie maxCap script =
+        .ok ⟨v', (spliceSpec env.bombs (capsOf env v hint lie maxCap) xs start end_ src script).exit, []⟩ ∧
+      Holds v' (spliceSpec env.bombs (capsOf env v hint lie maxCap) xs start end_ src script).final
+        (v.dropLog ++ (spliceSpec env.bombs (capsOf env v hint lie maxCap) xs start end_ src script).dropped)
+        (v.escaped ++ (spliceSpec env.bombs (capsOf env v hint lie maxCap) xs start end_ src script).escaped) ∧ v.cap ≤ v'.cap := by
   have hcap := seg_len_le_cap hs hl
   unfold splice spliceSpec
   by_cases hr : start > end_ ∨ end_ > v.len
@@ -473,23 +640,50 @@ theorem splice_holds (env : Env) (hk : env.kind = .bump) (v : Vec) (xs : List Id
       have hpre : pre = u := by simpa using hu2.symm
       have sr1 : vr.slots = I head ++ H (a' + u.length + b') ++ I tail ++ H (v.cap - v.len) := by
         rw [sr, hpre]; simp [H_add]
-      obtain ⟨v', e6, h6, c6⟩ := spliceFinish_bump env hk (v := vr) (d := { dr with ptr := dr.end_ }) (dl := v.dropLog ++ u)
-        (esc := v.escaped ++ yielded rs) src hint sr1 (by rw [lr, lp, hhl]) rfl (by simp only; rw [tsr, tsp]; omega)
-        (by simp only; rw [tlr, tlp, htl]) (by rw [dlr, dlp, hpre]) (by rw [escr, escp])
-      rw [e6]
-      refine ⟨v', rfl, h6, ?_⟩
       have hc : vr.cap = v.cap := by
         have h1 := congrArg List.length sr1
         have h2 := congrArg List.length hxs
         simp only [List.length_append, length_I, length_H] at h1 h2
         show vr.slots.length = v.cap
         omega
-      omega
+      obtain ⟨v', e6, h6, c6⟩ := spliceFinish_bump env hk (v := vr) (d := { dr with ptr := dr.end_ }) (dl := v.dropLog ++ u)
+        (esc := v.escaped ++ yielded rs) src hint lie maxCap sr1 (by rw [lr, lp, hhl]) rfl (by simp only; rw [tsr, tsp]; omega)
+        (by simp only; rw [tlr, tlp, htl]) (by rw [dlr, dlp, hpre]) (by rw [escr, escp])
+      have hcaps : capsOf env vr hint lie maxCap = capsOf env v hint lie maxCap := by simp [capsOf, hc]
+      have hargs : spliceWritten (capsOf env v hint lie maxCap) start end_ xs.length src =
+          spliceWritten (capsOf env v hint lie maxCap) head.length (head.length + (a' + u.length + b'))
+            (head.length + (a' + u.length + b') + tail.length) src := by
+        have h2 := congrArg List.length hxs
+        simp only [List.length_append] at h2
+        congr 1 <;> omega
+      rw [hcaps, ← hargs] at e6 h6
+      rw [e6]
+      refine ⟨v', ?_, ?_, by omega⟩
+      · cases (spliceWritten (capsOf env v hint lie maxCap) start end_ xs.length src).2 <;> simp
+      · simpa [List.append_assoc] using h6
+/-- what was written is a prefix of the source -/
+theorem spliceWritten_prefix (c : SpliceCaps) (start end_ xsLen : Nat) (src : List Id) :
+    (spliceWritten c start end_ xsLen src).1 ++ src.drop (spliceWritten c start end_ xsLen src).1.length = src := by
+  unfold spliceWritten
+  by_cases h1 : end_ = xsLen
+  · simp only [h1, ↓reduceIte]
+    by_cases h2 : c.overflows start (spliceLower c.hintCap c.lie src.length) = true <;> simp [h2]
+  · simp only [h1, ↓reduceIte]
+    by_cases h2 : src.length < end_ - start
+    · simp [h2]
+    · simp only [h2, ↓reduceIte]
+      split
+      · exact take_append_drop_len _ _
+      · split
+        · simp
+        · split
+          · exact take_append_drop_len _ _
+          · simp
 
 /-- `splice` only moves ids around: contents, drops and hand-outs together are the old contents plus `src` -/
-theorem spliceSpec_perm (bombs : List Id) (xs : List Id) (start end_ : Nat) (src : List Id) (script : List Pull) :
-    ((spliceSpec bombs xs start end_ src script).final ++ (spliceSpec bombs xs start end_ src script).dropped ++
-      (spliceSpec bombs xs start end_ src script).escaped).Perm (xs ++ src) := by
+theorem spliceSpec_perm (bombs : List Id) (c : SpliceCaps) (xs : List Id) (start end_ : Nat) (src : List Id) (script : List Pull) :
+    ((spliceSpec bombs c xs start end_ src script).final ++ (spliceSpec bombs c xs start end_ src script).dropped ++
+      (spliceSpec bombs c xs start end_ src script).escaped).Perm (xs ++ src) := by
   unfold spliceSpec
   split
   · simp
@@ -499,12 +693,26 @@ theorem spliceSpec_perm (bombs : List Id) (xs : List Id) (start end_ : Nat) (src
       rw [h1, ← List.append_assoc, List.take_append_drop, List.take_append_drop]
     have hp := pullsSpec_perm script ((xs.take end_).drop start)
     rw [List.perm_iff_count] at hp
+    have hw : ∀ a, List.count a (spliceWritten c start end_ xs.length src).1 +
+        List.count a (src.drop (spliceWritten c start end_ xs.length src).1.length) = List.count a src := by
+      intro a
+      have hpre := spliceWritten_prefix c start end_ xs.length src
+      have := congrArg (List.count a) hpre
+      simpa [List.count_append] using this
     simp only
-    split <;>
+    split
     · simp only
       rw [List.perm_iff_count]
       intro a
       have h1 := hp a
       have h2 := congrArg (List.count a) hxs
       simp only [List.count_append] at h1 h2 ⊢
+      omega
+    · simp only
+      rw [List.perm_iff_count]
+      intro a
+      have h1 := hp a
+      have h2 := congrArg (List.count a) hxs
+      have h3 := hw a
+      simp only [List.count_append] at h1 h2 h3 ⊢
       omega
